@@ -273,6 +273,10 @@ class Check:
             sd = seed * 1000 + s
             specs.append({"name": f"gen-{sd}", "src": ["gen", {"seed": sd, "knobs": {"masking": True, "defender_position": "first" if s % 2 else "last"}}],
                           "policy": pols[s % 4], "seed": sd, "episodes": 2, "steps": 40 if q else 96})
+        for s in range(8 if q else 40):  # wireless-router family
+            sd = seed * 1000 + 300 + s
+            specs.append({"name": f"gen-wlan-{sd}", "src": ["gen", {"seed": sd, "family": "wlan", "knobs": {"masking": True, "defender_position": "first" if s % 2 else "last"}}],
+                          "policy": pols[s % 4], "seed": sd, "episodes": 2, "steps": 40 if q else 96})
         return specs
 
     def run_case(self, spec):
